@@ -1,0 +1,31 @@
+//go:build verif
+
+package config
+
+import (
+	"reservoir/utils/assertedpath"
+	"reservoir/utils/event"
+)
+
+// Verification hooks (build tag "verif" only). Nothing here is compiled into a normal build.
+
+// VerifSetConfigPath redirects persist() to another file (a scratch file of the harness).
+func VerifSetConfigPath(path string) {
+	configPath = assertedpath.Assert(path)
+}
+
+// VerifConfigPath returns the file persist() writes to.
+func VerifConfigPath() string { return configPath.Path }
+
+// VerifPersist writes the configuration to the config path exactly as an accepted update does.
+func VerifPersist(cfg *Config) error { return cfg.persist() }
+
+// VerifLoad reads a configuration file exactly as start-up does (decode, verify), without the
+// reset-to-defaults fallback of LoadOrDefault.
+func VerifLoad(path string) (*Config, error) { return load(path) }
+
+// VerifEvent exposes the change event of a property (see utils/event/zz_verif.go).
+func (p *ConfigProp[T]) VerifEvent() *event.Event[T] { return p.event() }
+
+// VerifResetRestartNeeded clears the process-wide restart flag between harness cases.
+func VerifResetRestartNeeded() { restartNeeded.Store(false) }
